@@ -318,6 +318,8 @@ def run_case(case: dict) -> core.CaseResult:
         store, exp = build(case['init'], case.get('init_route', 'from_tokens'))
         oracles = case.get('oracles', ['seq', 'pos'])
         check_from = case.get('check_from', 0)
+        for t in exp:               # reads on the initial state (also when it is a replayed prefix)
+            store.get_position(t)
         if check_from == 0:
             if 'seq' in oracles:
                 check_seq(store, exp, [], res, 'initial state')
@@ -333,6 +335,12 @@ def run_case(case: dict) -> core.CaseResult:
                     res.fail(f'{"C07" if "seq" in oracles else "C08"}/operation-raises',
                              f'step {step} {op}: {type(e).__name__}: {e}')
                 return res
+            if step < check_from:
+                # replayed prefix: already judged when it was the last step, but the reads happen again - a store that
+                # caches what it was asked (positions, block starts) must see the same sequence of calls as in a real history
+                for t in exp:
+                    store.get_position(t)
+                    store.get_index(t)
             if step >= check_from:
                 res.transitions += 1
                 where = f'after step {step} {op}'
